@@ -50,7 +50,7 @@ fn large_world() -> World {
             let mut h = [0u8; 20];
             h[..8].copy_from_slice(&((t * 1000 + k) as u64).to_le_bytes());
             h
-        }) }).collect(), locktime: 0 });
+        }) }).collect(), locktime: 0, wide: 0 });
     }
     cb.push(txs);
     cb.push(vec![]);
@@ -346,7 +346,7 @@ pub fn run() -> Report {
     for cb in CBS {
         for h in 0..6u64 {
             let flen = small.files[&h].len;
-            for f in ["removed", "emptied", "offset-past-eof", "offset-in-last-3-bytes"] {
+            for f in ["removed", "emptied", "offset-past-eof", "offset-in-last-3-bytes", "offset-plus-2^32", "offset-plus-2^33", "offset-with-bit-63", "offset-plus-2^16-past-eof"] {
                 cases.push(Case::Input { cb, height: h, fault: f.into(), range: (None, None) });
                 // the same fault with the block being the first / an inner / the last block of a requested range
                 for (rs, re) in [(Some(2u64), None), (None, Some(3u64)), (Some(1), Some(4))] {
@@ -441,6 +441,17 @@ pub fn run() -> Report {
                         "offset-in-last-3-bytes" => {
                             let mut r = recs[*height as usize].clone();
                             r.data_pos = flen + 1;
+                            world.put_rec(&r);
+                        }
+                        // far beyond the end of the file, but equal to the true offset modulo a power of two
+                        "offset-plus-2^32" | "offset-plus-2^33" | "offset-with-bit-63" | "offset-plus-2^16-past-eof" => {
+                            let mut r = recs[*height as usize].clone();
+                            r.data_pos += match fault.as_str() {
+                                "offset-plus-2^32" => 1u64 << 32,
+                                "offset-plus-2^33" => 1u64 << 33,
+                                "offset-with-bit-63" => 1u64 << 63,
+                                _ => 1u64 << 16,
+                            };
                             world.put_rec(&r);
                         }
                         t => {
@@ -562,7 +573,7 @@ pub fn run() -> Report {
         let btc = coin("bitcoin");
         let mut cb = ChainBuilder::with_genesis(btc);
         for (k, sz) in [40_000usize, 100_000, 300].iter().enumerate() {
-            let tx = Tx { version: 1, segwit: false, inputs: vec![TxIn::spend([0xee; 32], k as u32)], outputs: vec![TxOut { value: 5, script: vec![0x51; *sz] }, pay(9, 77)], locktime: 0 };
+            let tx = Tx { version: 1, segwit: false, inputs: vec![TxIn::spend([0xee; 32], k as u32)], outputs: vec![TxOut { value: 5, script: vec![0x51; *sz] }, pay(9, 77)], locktime: 0, wide: 0 };
             cb.push(vec![tx]);
         }
         let big = World::simple(btc, &cb.blocks, 0);
